@@ -328,8 +328,10 @@ def expected_observation(leaf, ctx):
         return ctx
     if kind in ("M", "W", "C"):
         try:
-            return {"M": "m_", "W": "w_", "C": "c_"}[kind] + str(lookup(ctx, leaf[1])) + \
-                (".pkl" if kind == "C" else "")
+            # a key "Ka+Kb" stands for the two-field template "{{Ka}}-{{Kb}}": derived only when both
+            # fields can be resolved
+            body = "-".join(str(lookup(ctx, k)) for k in leaf[1].split("+"))
+            return {"M": "m_", "W": "w_", "C": "c_"}[kind] + body + (".pkl" if kind == "C" else "")
         except KeyError:
             return None   # nothing derived
     raise ValueError(leaf)
